@@ -51,7 +51,7 @@ CHECKS = {
         note=NOTE, technique="exhaustive enumeration of concrete-dependency programs on the real macro; executed trace + availability probes vs model",
         ref="DESIGN.md §3 C05"),
     "C06": dict(
-        text="Every method word of length <= 2 (quick) / <= 3 (thorough) over 21 method shapes (provided methods incl. `where Self: Sized` and pattern parameters, macro_rules-stamped hygiene shapes incl. a macro-named method, unsafe / extern methods, 0-2 arguments incl. same-typed adjacent ones, &str, borrowed "
+        text="Every method word of length <= 2 (quick) / <= 3 (thorough) over 19 method shapes (provided methods incl. `where Self: Sized` and pattern parameters, macro_rules-stamped hygiene shapes incl. a macro-named method, unsafe / extern methods, 0-2 arguments incl. same-typed adjacent ones, &str, borrowed "
              "returns from arguments and from self, trait-generic and method-generic parameters, four async shapes) x selector {default, Self, ref, Borrow} x "
              "{non-generic, generic, bound+default generic, const-before-type generic} trait x supertrait/where clause x {native async, async_trait} is compiled and run against a tracing provider: one event per call, on "
              "the provider reached through the selected route (address), arguments in order, result unchanged; and `Impl<X>: Trait` is probed at run time "
@@ -135,7 +135,7 @@ CHECKS = {
         ref="DESIGN.md §3 C14"),
     "C15": dict(
         text="(i) every attribute-argument token word up to length 3 (quick) / 4 (thorough) over a 23-token alphabet (option names, values, "
-             "punctuation, keywords, literals, a parenthesised group) on fn, mod, trait and impl items (~50k invocations in quick); (ii) 59 documented-misuse "
+             "punctuation, keywords, literals, a parenthesised group) on fn, mod, trait and impl items (~50k invocations in quick); (ii) 60 documented-misuse "
              "and unsupported-item cases x both macro names, each in its own compiler process; (iii) every trait-method parameter-pattern word "
              "<= 2 over 10 patterns x {declaration, default body} x 6 delegation kinds; (iv) fn-signature pattern words x 4 contexts x {f, r#type}; (v) every sequence <= 2 (3) of 10 item shapes (where "
              "clauses with / without trailing comma, lifetime-only dependency bounds, HRTB predicates, async, body-less declarations with and without visibility) inside one module / impl block. For every invocation: no panic record and no `custom attribute "
